@@ -188,9 +188,11 @@ def gen_namespace(rng, nsname, thorough, deps, want_blocks=True, main=True):
     for r in records:
         sr = snake(r)
         f = rng.choice(apis)
-        if rng.random() < 0.8:
-            params = [] if rng.random() < 0.5 else [['x', rand_basic()]]
-            fn = D({'k': 'function', 'name': '%s_%s_new%s' % (p, sr, '' if not params else '_with_x'),
+        ctors = rng.sample(['new', 'new_with_x', 'new_from_string', 'new_default'], rng.choice([0, 1, 1, 2, 3]))
+        for cname in ctors:
+            params = {'new': [], 'new_default': [], 'new_with_x': [['x', rand_basic()]],
+                      'new_from_string': [['str', STRING_IN]]}[cname]
+            fn = D({'k': 'function', 'name': '%s_%s_%s' % (p, sr, cname),
                     'ret': ['ptr', ['named', P + r]], 'params': params}, rng.choice(apis))
             if want_blocks and rng.random() < 0.7:
                 tl = ['%s:' % fn['name']] + ['@%s: the %s' % (n, n) for n, _ in params]
